@@ -67,6 +67,11 @@ func (g *partialStructGen) GenerateType(c gengo.Context, named *types.Named) err
 		for _, spec := range d.Specs {
 			switch x := spec.(type) {
 			case *ast.TypeSpec:
+				// decl could be grouped, only the spec of this type
+				if x.Name.Name != named.Obj().Name() {
+					continue
+				}
+
 				switch x := x.Type.(type) {
 				case *ast.Ident:
 					switch x := pkg.ObjectOf(x).(type) {
